@@ -25,7 +25,7 @@ CLAIMED.update({
                 "guard of the read-N-or-EOF helpers (incl. cursor accumulation), LF/CR stripping of the line readers, CR of a CRLF split across two windows, copy-before-consume "
                 "in every copying scanner. Necessary conditions only: content "
                 "equality under every chunking is not decided.",
-        "note": "trusts std/tokio read_exact/read_until/BufReader contracts; known finding F6 (noodles-util autodetection) listed by exact key; genuine defect F16 (async FASTA CRLF across windows) found by R6 and repaired (fix: 981b297); R9 keeps the latent CrcReader slip (digests the whole filled part) unreachable; genuine defect F33 (FASTQ name keeps the CR across a refill) found after teaching R6's matcher memchr3, repaired (fix: 750caf3); known finding F47 (Interrupted through the text readers' fill_buf loops, 15 sites) by exact key (R11)",
+        "note": "trusts std/tokio read_exact/read_until/BufReader contracts; known finding F6 (noodles-util autodetection) listed by exact key; genuine defect F16 (async FASTA CRLF across windows) found by R6 and repaired (fix: 981b297); R9 keeps the latent CrcReader slip (digests the whole filled part) unreachable; genuine defect F33 (FASTQ name keeps the CR across a refill) found after teaching R6's matcher memchr3, repaired (fix: 750caf3); genuine defect F47 (Interrupted through the text readers' fill_buf loops, 15 sites) repaired (fix: d617af0; R11)",
         "technique": "static analysis: call-site classification by natural loops, enclosing trait method and forward data flow of the returned slice (MIR)",
         "design_ref": "§5 C12",
     },
